@@ -23,3 +23,47 @@ Print Assumptions C09_rect_is_dominated_exact.
 Theorem C09_rect_slack_shape : forall size m, gen_rect_dom_slack_ok size m = (Nat.eqb size 1 || Nat.eqb size m).
 Proof. reflexivity. Qed.
 Print Assumptions C09_rect_slack_shape.
+
+(* ---- ellipsoids: E(e) = { ec e + (esig e) u | u^T (esig e) u <= (ealpha e)^2 } ---- *)
+From VOPy Require Import Ellipsoid EllCert.
+
+(* the exact support-function decider is sound: when it answers true, every point of E2, helped by
+   the per-facet slack, dominates every point of E1 (covariances symmetric positive semi-definite) *)
+Theorem C09_ellipsoid_decider_sound : forall W e1 e2 s u1 u2, good e1 -> good e2 -> length s = length W ->
+  ell_dom W e1 e2 s = true -> in_region e1 u1 -> in_region e2 u2 ->
+  forall n, (n < length W)%nat ->
+    0 <= dot (nth n W []) (vsub (ell_point e2 u2) (ell_point e1 u1)) + nth n s 0.
+Proof. exact ell_dom_sound. Qed.
+Print Assumptions C09_ellipsoid_decider_sound.
+
+(* the square-root comparisons are decided exactly, without square roots *)
+Theorem C09_sqrt_sign_analysis : forall p q t A B, 0 <= p -> 0 <= q -> A * A <= p -> B * B <= q ->
+  (sqrt_sum_le p q t = true -> A + B <= t) /\ (sqrt_sum_lt p q t = true -> A + B < t).
+Proof.
+  intros p q t A B Hp Hq HA HB. split.
+  - exact (sqrt_sum_le_core p q t A B Hp Hq HA HB).
+  - exact (sqrt_sum_lt_core p q t A B Hp Hq HA HB).
+Qed.
+Print Assumptions C09_sqrt_sign_analysis.
+
+From Coq Require Import Reals.
+From VOPy Require Import EllipsoidR.
+(* real-number level: support function of the ellipsoid { c + alpha M g : |g| <= 1 } and the exact
+   comparison of sums of two square roots used by the decider *)
+Theorem C09_ellipsoid_support_function : forall n c alpha M w,
+  length c = n -> length w = n -> length M = n -> (forall r, In r M -> length r = n) -> (0 <= alpha)%R ->
+  (forall g, length g = n -> (rnorm2 g <= 1)%R ->
+     (rdot w c - alpha * sqrt (rnorm2 (rtmatvec M w)) <= rdot w (ell_pt c alpha M g))%R) /\
+  (exists g, length g = n /\ (rnorm2 g <= 1)%R /\
+     rdot w (ell_pt c alpha M g) = (rdot w c - alpha * sqrt (rnorm2 (rtmatvec M w)))%R).
+Proof.
+  intros n c alpha M w Hc Hw HM Hr Ha. split.
+  - intros g Hg Hn. exact (ell_support_lower n c alpha M w g Hc Hw Hg HM Hr Ha Hn).
+  - exact (ell_support_attained n c alpha M w Hc Hw HM Hr Ha).
+Qed.
+Print Assumptions C09_ellipsoid_support_function.
+
+Theorem C09_sqrt_sum_le_exact : forall p q t, (0 <= p)%R -> (0 <= q)%R ->
+  ((sqrt p + sqrt q <= t)%R <-> (0 <= t /\ p + q <= t * t /\ 4 * p * q <= (t * t - p - q) * (t * t - p - q))%R).
+Proof. exact sqrt_sum_le_iff. Qed.
+Print Assumptions C09_sqrt_sum_le_exact.
